@@ -375,6 +375,10 @@ def check(fx, rep, tier):
     # unclamped attacker-chosen constant (a 2^59-iteration copy loop inside one instruction defeats every configured bound).
     from .. import core
 
+    # the configured bounds are the ones the user set: configuration setters are one-to-one with fields
+    from .c18 import check_limit_writers
+
+    check_limit_writers(fx, rep, "R03.3", "gas_limit")
     core.import_rules(rep, fx, "C01", "R03.7", only_rules=("R01.3", "R01.4"), floor=10, what="recursive components and attacker-scaled ranges audited for halting")
     return rep.finish(
         "Control-skeleton audit of the four execution bounds: who writes the instruction pointer and who may step; the stop condition guarding the single step "
